@@ -2,6 +2,7 @@ import BigtoolsModel.BedZoomCompose
 import BigtoolsModel.Tiler4
 import BigtoolsModel.SweepProof
 import BigtoolsModel.ZoomQueryBytes
+import BigtoolsModel.WriterSections
 /-! # C08 — bigBed zoom levels are faithful reductions of coverage depth
 
 Property theorems (statements copied from the lemma modules, proofs by those lemmas). -/
@@ -70,3 +71,14 @@ theorem C08_zoom_range_query (b : Nat) (hb : 2 ≤ b) (hb16 : b < 256 ^ 2) (ds :
   zoom_query_bytes b hb hb16 ds hne hsorted hok l hl hsecs Ls hLs idx hidx c qs qe
 
 end BBI
+
+namespace BW
+
+/-- **Sectioning of zoom records (byte-level writer model, the one compared byte for byte with the real files).** However
+    a chromosome's zoom records are cut into blocks — every `items_per_slot` records and at the forced flushes of the final
+    drain — the block bytes, concatenated, are the encoding of the record stream: no record lost, duplicated or moved. -/
+theorem C08_zoom_sectioning_preserves_the_record_stream (ips : Nat) (hips : 0 < ips) (recs : List ZRec) (cuts : List Nat) :
+    (cutZoomSectionsAt ips recs cuts).flatMap (·.bytes) = recs.flatMap encZRec :=
+  cutZoomSectionsAt_bytes ips hips recs cuts
+
+end BW
